@@ -293,6 +293,14 @@ impl MachineState {
 
     #[inline(always)]
     pub(crate) fn check_for_interrupt(&mut self) -> bool {
+        if self.effective_block() > self.b {
+            // catch/3 (or setup_call_cleanup/3) has popped the choice point of
+            // its block but not yet restored the enclosing block: an exception
+            // thrown now would unwind to a dead stack frame. Leave the flag set,
+            // the interrupt is delivered at the next poll.
+            return false;
+        }
+
         if INTERRUPT.swap(false, atomic::Ordering::Relaxed) {
             self.throw_interrupt_exception();
             self.backtrack();
